@@ -8,7 +8,7 @@ func init() {
 	Runners["C03"] = fileRunner(RunC03)
 	harness.Specs["C03"] = &harness.PropSpec{
 		ID: "C03", Test: "TestC03", Kind: "file", Level: "exploration",
-		Quick: 24000, Thorough: 1500000,
+		Quick: 24000, Thorough: 700000,
 		Rule: "generated file programs (rapid; transactions of alloc/write(full,partial,load+edit)/read/free/flush/checkpoint/setroot ops, " +
 			"commit|rollback|close, reopen, writer stalls) executed against a map model; a case is non-trivial if it overwrote a committed page and " +
 			"contains at least one of: abort after Flush, checkpoint with a non-empty overwrite mapping, re-use of a freed page id, " +
